@@ -163,9 +163,12 @@ func (c *ctx) evmCall(class string, src *evmSrc, m cs.EVMMessage, judgeable bool
 				map[string]interface{}{"class": class, "trace": c.trace})
 		}
 		r.Count("accepted_imports", 1)
+		if !config.DefConfig.Common.EnableEventLog {
+			r.Count("accepted_imports_with_event_log_disabled", 1)
+		}
 		r.Count("accepted_from:"+src.name, 1)
 		r.Count("accepted_to:"+c.t.name[p.ToChainID], 1)
-		r.Distinct("acc", src.name, c.t.name[p.ToChainID], len(p.TxHash), len(p.CrossChainID), len(p.FromContractAddress), len(p.ToContractAddress), len(p.Method), len(p.Args))
+		r.Distinct("acc", config.DefConfig.Common.EnableEventLog, src.name, c.t.name[p.ToChainID], len(p.TxHash), len(p.CrossChainID), len(p.FromContractAddress), len(p.ToContractAddress), len(p.Method), len(p.Args))
 		return true
 	}
 	for _, f := range cs.CheckNoRelease(o) {
@@ -348,9 +351,12 @@ func (c *ctx) round(class string, source uint64, height uint32, extra []byte, p 
 					map[string]interface{}{"class": class, "trace": c.trace})
 			}
 			r.Count("accepted_imports", 1)
+			if !config.DefConfig.Common.EnableEventLog {
+				r.Count("accepted_imports_with_event_log_disabled", 1)
+			}
 			r.Count("accepted_from:"+router, 1)
 			r.Count("accepted_to:"+c.t.name[to], 1)
-			r.Distinct("acc", router, c.t.name[to], len(p.TxHash), len(p.CrossChainID), len(p.FromContractAddress), len(p.ToContractAddress), len(p.Method), len(p.Args))
+			r.Distinct("acc", config.DefConfig.Common.EnableEventLog, router, c.t.name[to], len(p.TxHash), len(p.CrossChainID), len(p.FromContractAddress), len(p.ToContractAddress), len(p.Method), len(p.Args))
 			if r.Get("accepted_imports") <= 3 && len(o.Rec.CrossHashes) == 1 {
 				th := o.Rec.Tx.Hash()
 				r.Sample(map[string]interface{}{"source": source, "to": to, "relay_tx": kit.Hex(th.ToArray()), "added_keys": o.Touched(), "leaf": kit.Hex(o.Rec.CrossHashes[0][:])})
@@ -396,9 +402,9 @@ func (c *ctx) fresh() []byte {
 func TestC22(t *testing.T) {
 	r := kit.Start(t, "C22", "exploration")
 	defer r.Finish()
-	r.Rule("voting rounds through ImportOuterTransfer on main-net id from {2 VOTE chains, 1 ripple chain, 1 eth chain, 1 bsc chain (proof-authenticated single-call imports of messages committed in a synthetic world state)} towards one registered chain per account-based router constant (21) and back to a source chain; messages with boundary-biased field sizes (0, 1, 0xfd boundary, kilobytes); classes: valid, destination unregistered, destination blacklisted, replay of an accepted cross-chain id, malformed message bytes; every call (votes below threshold, outsiders, repeat voters, votes after release, deciding calls) goes through the monitor; distinct = (source router, destination router, field lengths) for accepted imports and (router, class) for refused ones")
+	r.Rule("voting rounds through ImportOuterTransfer on main-net id from {2 VOTE chains, 1 ripple chain, 1 eth chain, 1 bsc chain (proof-authenticated single-call imports of messages committed in a synthetic world state)} towards one registered chain per account-based router constant (21) and back to a source chain; messages with boundary-biased field sizes (0, 1, 0xfd boundary, kilobytes); classes: valid, destination unregistered, destination blacklisted, replay of an accepted cross-chain id, malformed message bytes; a quarter of the rounds run with the node-local event log disabled (Common.EnableEventLog=false); every call (votes below threshold, outsiders, repeat voters, votes after release, deciding calls) goes through the monitor; distinct = (source router, destination router, field lengths) for accepted imports and (router, class) for refused ones")
 	polyeth.VerifSealBypass = true
-	defer func() { polyeth.VerifSealBypass = false }()
+	defer func() { polyeth.VerifSealBypass = false; config.DefConfig.Common.EnableEventLog = true }()
 	rng := r.Rand("cases")
 	nRounds := r.N(1500, 45000)
 	var tp *tpl
@@ -417,6 +423,12 @@ func TestC22(t *testing.T) {
 			vm, used, evmUsed = cs.NewVoteModel(), map[string]bool{}, map[string]bool{}
 		}
 		c := &ctx{r: r, rng: rng, t: tp, vm: vm, used: used}
+		// node-local configuration is a dimension: a quarter of the rounds run with the event log off
+		// (the request record and the cross-state leaf are consensus data and must not depend on it)
+		config.DefConfig.Common.EnableEventLog = rng.Intn(4) != 0
+		if !config.DefConfig.Common.EnableEventLog {
+			r.Count("rounds_with_event_log_disabled", 1)
+		}
 		if rng.Intn(4) == 0 {
 			tp.w.E.Height = 1 + uint32(rng.Intn(40000000))
 			if c.evmRound(evmUsed) {
@@ -465,6 +477,7 @@ func TestC22(t *testing.T) {
 	r.Assume("an import is 'accepted' when the call that brings the distinct-validator count to ceil(2N/3) succeeds (vote-authenticated routers); the verified message of the VOTE router is the voted message itself; for ripple-as-source the router fills ToContractAddress and rewrites Args from its asset binding, so only relay tx hash, source chain, TxHash, CrossChainID, FromContractAddress, ToChainID and Method are compared")
 	r.Assume("the leaf is SHA-256(0x00 ‖ request value) (RFC 6962 leaf hash); a transaction's leaves are what NativeService.GetCrossHashes returns after a successful Invoke, which the ledger appends to the block's cross-state tree")
 	r.Require("accepted_imports", nRounds/3)
+	r.Require("accepted_imports_with_event_log_disabled", nRounds/20)
 	r.Require("accepted_from:vote", nRounds/6)
 	r.Require("accepted_from:ripple", nRounds/12)
 	r.Require("accepted_from:eth", nRounds/40)
